@@ -130,9 +130,27 @@ func runLookup(c lookupCase) harness.Result {
 			return harness.Fail("harness: the response built from the payload encodes to %x, the frame is %x", resp.Bytes(), frame)
 		}
 	}
+	// two more responses are alive and queried alternately with the one under test (other devices polled in the same loop): one with
+	// the complemented payload, one a byte shorter. What is looked up in one response never comes from another.
+	inv := make([]byte, len(c.Payload))
+	for i, b := range c.Payload {
+		inv[i] = ^b
+	}
+	others := []packet.Response{}
+	for _, pl := range [][]byte{inv, inv[:len(inv)-len(inv)/2]} {
+		if len(pl) == 0 {
+			continue
+		}
+		if r2, err := parseResp(c.Framing, spec.EncodeResponse(c.Framing, spec.Resp{FC: c.FC, Unit: 4, Tx: 10, Data: pl})); err == nil {
+			others = append(others, r2)
+		}
+	}
 	nbits := 8 * len(c.Payload)
 	var o []obs
 	for i := 0; i < nbits && c.Start+i <= 65535; i++ {
+		if len(others) > 0 {
+			_, _ = isSet(others[i%len(others)], c.Method, uint16(c.Start), uint16(c.Start+i))
+		}
 		got, err := isSet(resp, c.Method, uint16(c.Start), uint16(c.Start+i))
 		if err != nil {
 			return harness.Fail("coil %d (address %d) lies inside the %d-byte payload starting at %d but the lookup failed: %v", i, c.Start+i, len(c.Payload), c.Start, err)
@@ -142,6 +160,9 @@ func runLookup(c lookupCase) harness.Result {
 	for _, a := range c.Outside {
 		if a < 0 || a > 65535 || (a >= c.Start && a < c.Start+nbits) {
 			continue
+		}
+		if len(others) > 0 {
+			_, _ = isSet(others[0], c.Method, uint16(c.Start), uint16(a))
 		}
 		got, err := isSet(resp, c.Method, uint16(c.Start), uint16(a))
 		if err == nil {
